@@ -7,6 +7,8 @@ TRUST = ("CPython 3.12 (re, pickle, sys.monitoring, signal); the reference model
 CHECKS = {
  'C01': ('exploration', '4 C01', 'Every grammar of the bounded families x every Earley lexer x every input up to the length bound is executed on the real parser and compared with an independent fix-point recogniser; a pass is a coverage statement for those boxes (small-scope), not a proof for all grammars.',
          'bounded exhaustive enumeration of (grammar, lexer, input) against a reference recogniser'),
+ 'C04': ('exploration', '4 C04', 'Every grammar of the bounded BNF families (helper spelled a/_a/?a, long alternatives, colliding terminals) x lexer x input is parsed with ambiguity=explicit and the collapsed tree set is compared with the set of shaped derivations from an independent fix-point enumerator; cyclic grammars: termination and soundness of every tree.',
+         'bounded exhaustive enumeration of (grammar, lexer, input) against a reference derivation enumerator'),
 }
 NOT_YET = {}
 def main():
